@@ -1,0 +1,6 @@
+//go:build !verif
+
+package xtime
+
+// Pause points for the runtime monitors in /verif; they do nothing unless built with -tags verif.
+func verifHook(point string) {}
